@@ -225,7 +225,7 @@ fn lines_input(rng: &mut SplitMix64) -> Vec<u8> {
                     if j > 0 {
                         out.push(b' ');
                     }
-                    let a = *rng.pick(&[Atom::I32, Atom::I32, Atom::U8, Atom::I64, Atom::I8]);
+                    let a = *rng.pick(&[Atom::I32, Atom::I32, Atom::U8, Atom::I64, Atom::I8, Atom::U128, Atom::U128, Atom::I128, Atom::U64]);
                     out.extend(int_token(rng, a));
                 }
             }
@@ -245,7 +245,7 @@ fn lines_input(rng: &mut SplitMix64) -> Vec<u8> {
                     if j > 0 {
                         out.push(if rng.chance(1, 4) { b'\t' } else { b' ' });
                     }
-                    let l = 1 + rng.below(6) as usize;
+                    let l = if rng.chance(1, 6) { 21 + rng.below(40) } else { 1 + rng.below(6) } as usize;
                     out.extend(word(rng, l));
                 }
             }
